@@ -480,7 +480,29 @@ func c07a(c *Ctx) {
 				return ok && bo.Op == token.ADD && (p1(bo.X) && p2(bo.Y) || p1(bo.Y) && p2(bo.X))
 			}
 			// nextWordWidth: the word's width, plus one space unless first
+			// (the space may also be chosen first: separator = 0 or the space width, then word + separator)
+			isSepChoice := func(v ssa.Value) bool {
+				var leaves []ssa.Value
+				phiLeaves(v, map[ssa.Value]bool{}, &leaves)
+				saw0, sawS := false, false
+				for _, lf := range leaves {
+					k, isC := intConst(lf)
+					switch {
+					case isC && k == 0:
+						saw0 = true
+					case isSpaceWidth(lf):
+						sawS = true
+					default:
+						return false
+					}
+				}
+				_, isPhi := v.(*ssa.Phi)
+				return isPhi && saw0 && sawS
+			}
 			isNW := func(v ssa.Value) bool {
+				if isSum(v, isW, isSepChoice) {
+					return true
+				}
 				var leaves []ssa.Value
 				phiLeaves(v, map[ssa.Value]bool{}, &leaves)
 				sawW, sawWS := false, false
